@@ -163,8 +163,12 @@ func genC10(r *Rng, tier string) *World {
 	if r.P(0.3) {
 		root.Walk(func(n *Node) {
 			for i := range n.Tests {
-				if r.P(0.25) && n.Catch == nil {
+				if r.P(0.25) && n.Catch == nil && !n.Tests[i].TFunc {
 					n.Tests[i].Path = "custom.path" + strconv.Itoa(i)
+					if r.P(0.5) && len(root.Fields) > 0 {
+						// the path of another node that has issues of its own: lists are revisited
+						n.Tests[i].Path = SourceKey(Pick(r, root.Fields), "")
+					}
 				}
 			}
 		})
@@ -346,7 +350,7 @@ func runC10(x *X) *Violation {
 				if strings.HasPrefix(a.Msg, "M") && len(a.Msg) <= 3 {
 					allFormatted = false // test-level Message: never reaches the execution formatter
 				}
-				if strings.HasPrefix(a.Msg, "pt-issue") || strings.HasPrefix(a.Msg, "MF:") || a.Msg == "RM" {
+				if strings.HasPrefix(a.Msg, "pt-issue") || strings.HasPrefix(a.Msg, "MF:") || strings.HasPrefix(a.Msg, "TF:") || a.Msg == "RM" {
 					allFormatted = false
 				}
 			}
@@ -490,7 +494,7 @@ func catalogue() []cell {
 	for _, not := range []bool{false, true} {
 		// (test, failing input, passing input) – pick the failing one for the polarity
 		type tc struct {
-			t        TestSpec
+			t         TestSpec
 			bad, good string
 		}
 		tcs := []tc{
@@ -562,7 +566,8 @@ func catalogue() []cell {
 	return cs
 }
 
-var fmtConfigs = []string{"default", "i18n:en:", "i18n:en:es", "i18n:en:en", "i18n:es:", "i18n:en:xx", "i18n:es:xx", "custom"}
+// "i18n:<default language>:<language this execution asks for>[:<custom language key>]"
+var fmtConfigs = []string{"default", "i18n:en:", "i18n:en:es", "i18n:en:en", "i18n:es:", "i18n:en:xx", "i18n:es:xx", "custom", "i18n:en:es:locale", "i18n:es:en:locale"}
 
 func genC11(r *Rng, tier string) *World {
 	w := &World{Prop: "C11", Cfg: DrawDecCfg(r), Params: map[string]int{}}
@@ -654,8 +659,15 @@ func genC11(r *Rng, tier string) *World {
 		if op.Schema == 0 && (op.Kind == "parse" || op.Kind == "validate") {
 			f := fmtConfigs[w.Params["fmt"]]
 			if strings.HasPrefix(f, "i18n:") {
-				if l := strings.Split(f, ":")[2]; l != "" {
-					op.Opts = append(op.Opts, OptSpec{K: "ctx", Key: "lang", Val: VS(l)})
+				parts := strings.Split(f, ":")
+				key := "lang"
+				if len(parts) > 3 {
+					key = parts[3]
+					// the default key must then be ignored
+					op.Opts = append(op.Opts, OptSpec{K: "ctx", Key: "lang", Val: VS("xx")})
+				}
+				if l := parts[2]; l != "" {
+					op.Opts = append(op.Opts, OptSpec{K: "ctx", Key: key, Val: VS(l)})
 				}
 			}
 		}
@@ -685,8 +697,13 @@ func installFormatter(cfg string) {
 	case cfg == "custom":
 		conf.IssueFormatter = func(e *z.ZogIssue, c z.Ctx) { e.SetMessage("GLOBAL:" + e.Code) }
 	case strings.HasPrefix(cfg, "i18n:"):
-		def := strings.Split(cfg, ":")[1]
-		i18n.SetLanguagesErrsMap(map[string]zconst.LangMap{"en": en.Map, "es": es.Map}, def)
+		parts := strings.Split(cfg, ":")
+		def := parts[1]
+		if len(parts) > 3 {
+			i18n.SetLanguagesErrsMap(map[string]zconst.LangMap{"en": en.Map, "es": es.Map}, def, i18n.WithLangKey(parts[3]))
+		} else {
+			i18n.SetLanguagesErrsMap(map[string]zconst.LangMap{"en": en.Map, "es": es.Map}, def)
+		}
 	default:
 		conf.IssueFormatter = conf.DefaultIssueFormatter
 	}
@@ -728,8 +745,12 @@ func runC11(x *X) *Violation {
 		case strings.HasPrefix(cfg, "i18n:"):
 			parts := strings.Split(cfg, ":")
 			lang := parts[1]
+			key := "lang"
+			if len(parts) > 3 {
+				key = parts[3]
+			}
 			for _, o := range op.Opts {
-				if o.K == "ctx" && o.Key == "lang" && (o.Val.S == "en" || o.Val.S == "es") {
+				if o.K == "ctx" && o.Key == key && (o.Val.S == "en" || o.Val.S == "es") {
 					lang = o.Val.S
 				}
 			}
@@ -866,6 +887,11 @@ func runC11(x *X) *Violation {
 			case ts != nil && ts.Msg != "":
 				if a.Msg != ts.Msg {
 					return &Violation{Class: "C11/test-level-message-not-used", Detail: fmt.Sprintf("%s: want %q", a.Full(), ts.Msg)}
+				}
+				x.Probes["msg_test_level"]++
+			case ts != nil && ts.TFunc:
+				if a.Msg != "TF:"+a.Code {
+					return &Violation{Class: "C11/custom-test-own-message-not-kept", Detail: a.Full()}
 				}
 				x.Probes["msg_test_level"]++
 			case ts != nil && ts.MsgFn:
